@@ -253,7 +253,7 @@ class AsyncSocket(base_socket.BaseSocket):
             if p is None:
                 # connection closed by client
                 break
-            if self.closing or self.closed:
+            if self.closed:
                 # the session has ended, do not dispatch any more packets
                 break
             pkt = packet.Packet(encoded_packet=p)
